@@ -676,3 +676,25 @@ def check_C11(tier, seed):
         "negative_control": "SerMode=nohalf (half_used not serialized) violates RestoreIsIdentical"}
     vlib.write_evidence("C11", tier, seed, "model_checking", cov, COMMON_ASSUME[:2] + ["harness built with the serde features of rand_xoshiro / rand_xorshift / rand_isaac; bincode 1.3 and serde_json as the two data formats"], time.time() - t0, nviol)
     return 1 if nviol else 0
+
+
+# ---------------------------------------------------------------- C17
+def check_C17(tier, seed):
+    import cover
+    t0 = time.time()
+    wd = vlib.workdir("mc-C17")
+    mc = run_api_mc(tier, wd)
+    walks = {}
+    for name, kind in (("Hc128", "Hc128Rng"), ("Isaac", "IsaacRng"), ("Isaac64", "Isaac64Rng")):
+        init, g = cover.project(mc[name][1], True)
+        few = lambda s, e: (e[0] != "fill_bytes" or e[1] <= 9) and (s == ("init", 0) or s[0] % 16 in (0, 15) or s[0] < 4)
+        walks[kind] = cover.cover_walks(init, g, few, max_walk=40)
+    S = corpora.c17_corpus(seed, tier, walks)
+    ev, cs, res = run_trace("C17", S, "Trace_Debug.tla", "Trace_Debug.cfg", nshards=8)
+    nviol = report_rejections("C17", res["rejected"], S)
+    texts = sorted({e["text"] for e in ev if e.get("e") == "debug"})
+    cov = base_cov([(ev, cs, res)], "{:?} and {:#?} of XorShiftRng, Hc128Rng/Hc128Core, IsaacRng/IsaacCore, Isaac64Rng/Isaac64Core and JitterRng are recorded after every operation of walks taken from TLC's state graph of the API machine and of random walks, each walk under several seeds (incl. all-zero and all-ones) resp. timer scripts; Trace_Debug learns an uninterpreted DebugFn keyed by (kind, format, history) and, for buffered types, by (kind, format, index, half_used) computed by the API machine, and rejects a second, different text for a key. distinct = distinct recorded events", ["Trace_Debug"])
+    cov["distinct_debug_texts"] = len(texts)
+    cov["debug_text_samples"] = texts[:6]
+    vlib.write_evidence("C17", tier, seed, "model_checking", cov, COMMON_ASSUME[:2] + ["state leakage is detected as seed-dependence of the text: every history is run under >= 5 seeds / timer scripts; content that does not depend on seed or state is not state"], time.time() - t0, nviol)
+    return 1 if nviol else 0
